@@ -9,7 +9,7 @@ else
   git apply "$patch"
 fi
 for p in "$@"; do
-  out=$(cd /verif && bin/ojgcheck -prop $p 2>&1); code=$?
+  mkdir -p /tmp/sv; cp /verif/KNOWN_FINDINGS.txt /tmp/sv/ 2>/dev/null; out=$(cd /verif && bin/ojgcheck -prop $p -verif /tmp/sv 2>&1); code=$?
   echo "--- $p exit=$code"
   echo "$out" | grep -E "VIOLATION|rule=|ERROR|KNOWN" | head -8
 done
